@@ -257,3 +257,85 @@ theorem cover_default (sites k : Nat) (h : k < 2 * sites) :
   ⟨k / 2, by omega, by unfold upIndex downIndex; omega⟩
 
 end OFV.C10
+
+namespace OFV.C10
+open OFV.Model OFV.Model.C10 OFV.Spec OFV.Spec.C10
+
+theorem MapsOK.swap {n sites : Nat} {up down : Nat → Nat} (h : MapsOK n sites up down) :
+    MapsOK n sites down up :=
+  ⟨h.downLt, h.upLt, h.downInj, h.upInj, fun s t hs ht e => h.disj t s ht hs e.symm⟩
+
+/-- the branch without a particle number: `a` more particles of the `more` kind than of the `less` kind -/
+theorem sz_free_branch {n sites : Nat} {more less : Nat → Nat} (hm : MapsOK n sites more less) (a : Nat) :
+    let l := (List.range (sites + 1 - a)).flatMap fun d =>
+      szPairs n more less (combinations (List.range sites) (a + d)) (combinations (List.range sites) (a + d - a))
+    l.Nodup ∧ ∀ I, I ∈ l ↔
+      I < 2 ^ n ∧
+      (∀ k, k < n → occAt n I k = true → ∃ s, s < sites ∧ (k = more s ∨ k = less s)) ∧
+      ((List.range sites).filter fun s => occAt n I (more s)).length
+        = ((List.range sites).filter fun s => occAt n I (less s)).length + a := by
+  intro l
+  have hsub : ∀ d, a + d - a = d := by intro d; omega
+  have hmem : ∀ d I, I ∈ szPairs n more less (combinations (List.range sites) (a + d))
+        (combinations (List.range sites) (a + d - a)) ↔
+      I < 2 ^ n ∧
+      (∀ k, k < n → occAt n I k = true → ∃ s, s < sites ∧ (k = more s ∨ k = less s)) ∧
+      ((List.range sites).filter fun s => occAt n I (more s)).length = a + d ∧
+      ((List.range sites).filter fun s => occAt n I (less s)).length = d := by
+    intro d I
+    rw [hsub d]
+    exact mem_szPairs_comb hm (a + d) d I
+  refine ⟨?_, ?_⟩
+  · show List.Pairwise (· ≠ ·) _
+    rw [List.pairwise_flatMap]
+    refine ⟨fun d _ => by rw [hsub d]; exact nodup_szPairs_comb hm (a + d) d, ?_⟩
+    apply List.Pairwise.imp_of_mem _ (List.nodup_range (n := sites + 1 - a))
+    intro d1 d2 _ _ hne x hx y hy hxy
+    subst hxy
+    have h1 := ((hmem d1 x).mp hx).2.2.2
+    have h2 := ((hmem d2 x).mp hy).2.2.2
+    exact hne (h1.symm.trans h2)
+  · intro I
+    rw [List.mem_flatMap]
+    constructor
+    · rintro ⟨d, _, hd⟩
+      obtain ⟨h1, h2, h3, h4⟩ := (hmem d I).mp hd
+      exact ⟨h1, h2, by omega⟩
+    · rintro ⟨h1, h2, h3⟩
+      have hle : ((List.range sites).filter fun s => occAt n I (more s)).length ≤ sites := by
+        have := List.length_filter_le (fun s => occAt n I (more s)) (List.range sites)
+        simpa using this
+      refine ⟨((List.range sites).filter fun s => occAt n I (less s)).length, List.mem_range.mpr (by omega), ?_⟩
+      exact (hmem _ I).mpr ⟨h1, h2, by omega, rfl⟩
+
+end OFV.C10
+
+namespace OFV.C10
+open OFV.Model OFV.Model.C10 OFV.Spec OFV.Spec.C10
+
+theorem sz_indices_spec_fixed' (sz : Rat) (n ne : Nat) (up down : Nat → Nat) (l : List Nat)
+    (h : jwSzIndices sz n (some ne) up down = .ok l) (hm : MapsOK n (n / 2) up down) :
+    ∃ numUp numDown : Nat, numUp + numDown = ne ∧ ((numUp : Int) - numDown = (2 * sz).num) ∧ (2 * sz).den = 1 ∧
+      l.Nodup ∧ ∀ I, I ∈ l ↔
+        I < 2 ^ n ∧
+        (∀ k, k < n → occAt n I k = true → ∃ s, s < n / 2 ∧ (k = up s ∨ k = down s)) ∧
+        ((List.range (n / 2)).filter fun s => occAt n I (up s)).length = numUp ∧
+        ((List.range (n / 2)).filter fun s => occAt n I (down s)).length = numDown := by
+  unfold jwSzIndices at h
+  split at h
+  · cases h
+  · split at h
+    · cases h
+    · next hden =>
+      simp only at h
+      split at h
+      · cases h
+      · next hcond =>
+        simp only [Except.ok.injEq] at h
+        subst h
+        simp only [Bool.or_eq_true, bne_iff_ne, ne_eq, decide_eq_true_eq, not_or, Decidable.not_not,
+          Int.not_lt] at hcond
+        refine ⟨(((ne : Int) + (2 * sz).num) / 2).toNat, ne - (((ne : Int) + (2 * sz).num) / 2).toNat,
+          by omega, by omega, by simpa using hden, nodup_szPairs_comb hm _ _, fun I => mem_szPairs_comb hm _ _ I⟩
+
+end OFV.C10
